@@ -261,7 +261,8 @@ def grammarOk (inp : Input) : Bool :=
   wfLevels inp.src && wfLevels inp.dest && wfSelectors inp.src && wfSelectors inp.dest &&
   !dupFns inp.fns && inp.fns.all (fun f => !f.param.isStructSlice && !f.result.isStructSlice) &&
   wfNewSide inp.src inp.srcNew && wfNewSide inp.dest inp.destNew &&
-  ((plan inp).st.toC ++ (plan inp).st.fromC).all (fun c => !isSubStrat c.strat || subNamesAgree c.rd.ty c.wr.ty || subNamesAgree c.wr.ty c.rd.ty) &&
+  (plan inp).st.toC.all (fun c => !isSubStrat c.strat || subNamesAgree c.rd.ty c.wr.ty) &&
+  (plan inp).st.fromC.all (fun c => !isSubStrat c.strat || subNamesAgree c.wr.ty c.rd.ty) &&
   (leavesOf inp.dest).all (fun d => match d.decl.tag with | .name _ => false | _ => true)
 
 /-- the generator's pair loop visits every reading field with at most one partner, and vice versa -/
@@ -375,6 +376,7 @@ def stmtTablesOk (rs ws : SideSem) (alloc : List (List String)) (c : Claim) : Bo
   | some rl, some wl =>
     chainOk rs.ptrs [] (readGuard rs.ptrs c.rd) &&
     (hops rs.ptrs rl.path).all (readGuard rs.ptrs c.rd).contains &&
+    (readGuard rs.ptrs c.rd).all (hops rs.ptrs rl.path).contains &&
     (hops ws.ptrs wl.path).all alloc.contains
   | _, _ => false
 
